@@ -29,11 +29,42 @@ StateP == [cfg |-> cfg', locked |-> locked', vault |-> vault', claimed |-> claim
 NoLast == [ops |-> <<>>, caller |-> {}, budget |-> "ample", class |-> "ok", at |-> 0, royalty |-> [r \in Recipients |-> Nil],
            total |-> Nil, got |-> Nil]
 
+(* Walk 1 is not random: a fixed script from the all-free unlocked configuration that visits every limit and every
+   operation kind independently of the seed: maximum / above-maximum / zero / negative amounts in XRD and USD with
+   set_royalty and the charge that follows, set-then-call and call-then-claim inside one transaction, claims by owner /
+   stranger, lock and every operation on a locked configuration (amount check before the lock), nested / child /
+   function calls, package claims (owner, stranger, ownerless package), a failing instruction after charges, tiny
+   locked fees under and over the budget.                                                            *)
+Both == {1, 2}
+T(ops, caller, budget) == [ops |-> ops, caller |-> caller, budget |-> budget]
+SetOp(c, m, k, n) == Op("set", c, "-", m, Amt(k, n))
+CallOp(c) == Op("call", c, "-", "m_pub", Free)
+Script == <<
+  T(<<SetOp("C1", "m_pub", "xrd", 166)>>, Both, "ample"), T(<<CallOp("C1")>>, {}, "ample"),
+  T(<<SetOp("C1", "m_pub", "xrd", 167)>>, Both, "ample"), T(<<SetOp("C1", "m_pub", "usd", 9)>>, Both, "ample"),
+  T(<<Op("nested", "C2", "C1", "-", Free)>>, {}, "ample"), T(<<SetOp("C1", "m_pub", "usd", 11)>>, Both, "ample"),
+  T(<<SetOp("C1", "m_pub", "xrd", 0)>>, Both, "ample"), T(<<CallOp("C1")>>, {}, "ample"),
+  T(<<SetOp("C1", "run", "usd", 0)>>, Both, "ample"), T(<<SetOp("C1", "m_pub", "xrd", -1)>>, Both, "ample"),
+  T(<<SetOp("C1", "m_pub", "usd", -1)>>, Both, "ample"), T(<<SetOp("C1", "m_pub", "xrd", 2), CallOp("C1")>>, Both, "ample"),
+  T(<<CallOp("C1"), Op("claim", "C1", "-", "-", Free)>>, Both, "ample"), T(<<Op("claim", "C1", "-", "-", Free)>>, Both, "ample"),
+  T(<<Op("claim", "C1", "-", "-", Free)>>, {2}, "ample"), T(<<Op("lock", "C1", "-", "m_pub", Free)>>, {2}, "ample"),
+  T(<<Op("lock", "C1", "-", "m_pub", Free)>>, Both, "ample"), T(<<SetOp("C1", "m_pub", "xrd", 1)>>, Both, "ample"),
+  T(<<Op("lock", "C1", "-", "m_pub", Free)>>, Both, "ample"), T(<<SetOp("C1", "m_pub", "xrd", 167)>>, Both, "ample"),
+  T(<<CallOp("C1")>>, {}, "ample"), T(<<Op("child", "C1", "C2", "-", Free)>>, {}, "ample"),
+  T(<<Op("fn", "PW", "-", "-", Free)>>, {}, "ample"), T(<<Op("claimpkg", "PW", "-", "-", Free)>>, {1}, "ample"),
+  T(<<Op("claimpkg", "PW", "-", "-", Free)>>, {2}, "ample"), T(<<Op("claimpkg", "PN", "-", "-", Free)>>, Both, "ample"),
+  T(<<CallOp("C1"), Op("fail", "-", "-", "-", Free)>>, {}, "ample"), T(<<CallOp("C1")>>, {}, "tiny"),
+  T(<<SetOp("C2", "m_pub", "xrd", 166)>>, Both, "ample"), T(<<CallOp("C2")>>, {}, "tiny"),
+  T(<<CallOp("C2"), CallOp("C2"), CallOp("C2")>>, {}, "ample"), T(<<SetOp("C2", "m_pub", "xrd", 3), CallOp("C2")>>, Both, "tiny"),
+  T(<<Op("lock", "C2", "-", "run", Free), SetOp("C2", "run", "usd", 1)>>, Both, "ample"),
+  T(<<Op("claim", "C2", "-", "-", Free), Op("claim", "C2", "-", "-", Free)>>, {2}, "ample") >>
+Scripted == sd = 1
+Bound == IF Scripted THEN Len(Script) ELSE K
 GInit ==
   /\ sd \in 1..Walks /\ step = 0 /\ rs = Stream(sd)
-  /\ cfg = [c \in Comps |-> [m \in Methods |->
+  /\ cfg = [c \in Comps |-> [m \in Methods |-> IF Scripted THEN Free ELSE
               InitAmts[(rs[(IF c = "C1" THEN 0 ELSE 2) + (IF m = "m_pub" THEN 1 ELSE 2)] % 6) + 1]]]
-  /\ locked = [c \in Comps |-> [m \in Methods |-> rs[4 + (IF c = "C1" THEN 0 ELSE 2) + (IF m = "m_pub" THEN 1 ELSE 2)] % 4 = 0]]
+  /\ locked = [c \in Comps |-> [m \in Methods |-> ~Scripted /\ rs[4 + (IF c = "C1" THEN 0 ELSE 2) + (IF m = "m_pub" THEN 1 ELSE 2)] % 4 = 0]]
   /\ vault = [r \in Recipients |-> Nil] /\ claimed = Nil /\ paid = Nil
   /\ last = NoLast
   /\ hist = <<[tx |-> NoLast, st |-> State]>>
@@ -61,10 +92,11 @@ TxOf(j) ==
       caller == {b \in Badges : (b = 1 /\ r[p + 1] % 3 # 0) \/ (b = 2 /\ r[p + 1] % 2 = 0)}
       budget == IF r[p + 2] % 4 = 0 /\ Decidable(ops, "tiny") THEN "tiny" ELSE "ample"
   IN [ops |-> ops, caller |-> caller, budget |-> budget]
-GNext == /\ step < K
-         /\ LET t == TxOf(step + 1) IN Tx(t.ops, t.caller, t.budget)
+GNext == /\ step < Bound
+         /\ LET t == IF Scripted THEN Script[step + 1] ELSE TxOf(step + 1)
+            IN (Scripted => Decidable(t.ops, t.budget)) /\ Tx(t.ops, t.caller, t.budget)
          /\ step' = step + 1 /\ sd' = sd /\ rs' = rs
          /\ hist' = Append(hist, [tx |-> last', st |-> StateP])
 GSpec == GInit /\ [][GNext]_gvars
-Emit == step = K => PrintT(<<"B", ToJson(hist)>>)
+Emit == step = Bound => PrintT(<<"B", ToJson(hist)>>)
 =============================================================================
